@@ -11,6 +11,7 @@ pub use std::time::{Duration, Instant, SystemTime, UNIX_EPOCH};
 /// Wasm32 target arch does not support `time` or spawning via tokio
 /// so we shim in alternatives here when building for that architecture
 #[cfg(not(target_arch = "wasm32"))]
+#[cfg(not(feature = "verif-hooks"))]
 pub use tokio::{
     spawn,
     time::{interval, sleep, timeout, Interval},
@@ -27,3 +28,8 @@ pub use wasmtimer::{
 
 #[cfg(target_arch = "wasm32")]
 pub use wasm_bindgen_futures::spawn_local as spawn;
+
+#[cfg(all(not(target_arch = "wasm32"), feature = "verif-hooks"))]
+pub use crate::verif_hooks::spawn;
+#[cfg(all(not(target_arch = "wasm32"), feature = "verif-hooks"))]
+pub use tokio::time::{interval, sleep, timeout, Interval};
